@@ -89,10 +89,10 @@ def run(rep, pdb, tier):
         ctx = Ctx.for_fn(pdb, fn)
         tail = fn["body"].get("expr")
         t = ctx.term(tail) if tail is not None else None
-        inner = t[2] if t is not None and t[0] == "call" and len(t) == 3 else None
+        inner = t[2] if t is not None and t[0] == "call" and len(t) in (3, 4) else None      # unwrap() or expect("..")
         if inner is not None and inner[0] == "var" and ctx.def_term(inner) is not None:
             inner = ctx.def_term(inner)
-        ok = t is not None and t[0] == "call" and str(t[1]).endswith("::unwrap") and inner is not None and inner[0] == "call" and str(inner[1]).endswith("::pop") and inner[2] == VEC0
+        ok = t is not None and t[0] == "call" and str(t[1]).endswith(("::unwrap", "::expect")) and inner is not None and inner[0] == "call" and str(inner[1]).endswith("::pop") and inner[2] == VEC0
         rep.add("edit/pop", rule, ok, fn["body"], "", where=loc(fn["body"]))
     # ---- dot
     fn = pdb.fn("%s::dot" % V)
